@@ -523,6 +523,10 @@ def extra_cases(rng, tier):
             else:
                 ops += [f"wpropose main={hx3(main)} fb={hl3(sup)}", f"wresp {hx3(b)}"]
         cases.append(ops)
+    # encoder/decoder agreement at the frame-size limit and elsewhere: the C03 area's own generator (names up to and
+    # beyond MAX_FRAME_SIZE, every message kind), judged by the C03 oracle as well
+    for _ in range({"quick": 150, "thorough": 3000, "search": 300}[tier]):
+        cases.append(c03.gen_case(rng))
     yield "C03", cases
     # substream length prefixes (the sender is a scripted raw writer)
     c4 = []
@@ -554,6 +558,9 @@ def extra_cases(rng, tier):
 
 def oracle_extra(xpid, case, out):
     bad = []
+    if xpid == "C03":
+        from . import c03
+        bad += [dict(v, msg="(multistream area) " + v["msg"]) for v in c03.oracle(case, out)]
     for i, op in enumerate(case):
         if i >= len(out):
             break
